@@ -204,15 +204,17 @@ func (c *verCase) run() {
 		if what == "no-op statement" && after != before {
 			c.fail(fmt.Sprintf("a statement that changed nothing changed s3db_version: %s -> %s", before, after))
 		}
-		if what == "refresh" && rowsAfter == rowsBefore && after != before && len(c.store.Keys("p/s3db-rows/root/current/")) <= 1 {
-			// a refresh that merged nothing new must not invent a version
-			var a, b []string
-			ab, _ := hexDecode(strings.TrimPrefix(after, "T:"))
+		if what == "refresh" && after != before {
+			// a refresh with nothing to merge — the connection's single version is still the only
+			// current one — must not invent a version.  (When another writer has superseded it, moving
+			// to that writer's version is a change even if the visible rows happen to be equal.)
+			var b []string
 			bb, _ := hexDecode(strings.TrimPrefix(before, "T:"))
-			json.Unmarshal(ab, &a)
 			json.Unmarshal(bb, &b)
-			if len(a) == 1 && len(b) == 1 {
-				c.fail(fmt.Sprintf("a refresh that changed nothing changed s3db_version: %s -> %s", bb, ab))
+			cur := c.store.Keys("p/s3db-rows/root/current/")
+			if len(b) == 1 && len(cur) == 1 && strings.HasSuffix(cur[0], "/"+b[0]) {
+				ab, _ := hexDecode(strings.TrimPrefix(after, "T:"))
+				c.fail(fmt.Sprintf("a refresh that had nothing to merge changed s3db_version: %s -> %s", bb, ab))
 			}
 		}
 		c.take(db, t, s)
